@@ -10,7 +10,7 @@ import re
 from hypothesis import strategies as st
 
 from vf import findings, hyp
-from vf.gens import corpus, grammar, mutate
+from vf.gens import corpus, grammar, mutate, c17_shapes
 from vf.oracles.struct import struct, diff
 from vf.props.c02 import site_of
 
@@ -21,22 +21,30 @@ RULE = ('cases = (parser dialect, text) accepted by parse_sql, each judged again
         'shapes (unknown / parameterised cast and column types, multi-argument aggregates, tuples under every operator, '
         '3-part names, parameters, LATEST, native queries, multi-part aliases, DROP of several tables, CREATE TABLE forms), a function '
         'catalogue (every name SQLAlchemy registers a function class for + common SQL functions x 16 argument-list shapes incl. FROM arguments), '
+        'the same registered names x 29 kinds of argument node x 6 argument-list forms (origin funcargs), names made of characters that SQLAlchemy\'s '
+        'text layer interprets (bind markers, percent signs, foreign quotes, control characters, 300-character names) in 43 name positions '
+        '(origin names), chains / nests / lists of one construct 30-200 levels deep or 600-3200 items wide (origin deep: the tree\'s own printer '
+        'is far from the recursion limit there, SQLAlchemy\'s compiler is not), '
         'every expression fragment in every clause position of SELECT/INSERT/UPDATE/DELETE/CREATE frames and every table '
         'fragment in every table position (exhaustive single splice), plus random cases: grammar derivations (3 dialects, '
         'stratified towards the statement kinds the renderer translates), token mutations of corpus statements, fragments '
-        'spliced over constants of corpus statements, nested / mixed fragments, random column definitions; non-trivial = '
+        'spliced over constants of corpus statements, nested / mixed fragments, random column definitions, one construct at a random depth 20-220; non-trivial = '
         'the no-fallback path raised on >= 1 target (the fallback has to take over) or the statement rendered and its text '
         'is not verbatim in the corpus; distinct by whitespace-normalised text per dialect')
 ASSUMPTIONS = ['"tree the parsers can produce" = the statement returned by parse_sql (sub-trees are not rendered alone)',
                'a tree whose own str() raises (a C01 defect) is excluded when only the fallback needs that string',
-               'the SQLAlchemy rendering is taken as whatever the no-fallback call returns (its meaning is C06/C07)']
+               'the SQLAlchemy rendering is taken as whatever the no-fallback call returns (its meaning is C06/C07)',
+               'a RecursionError of the renderer counts as a leak only when the tree\'s own str() succeeds with half of the stack that is left '
+               '(otherwise the tree is at the edge of the interpreter\'s limit for every consumer and the case is excluded)']
 FLOORS = {'quick': {'__nontrivial__': 3000, 'fallback-exercised': 1100, 'rendered': 2800, 'origin:splice': 500, 'origin:splice-all': 2000,
                     'origin:grammar': 800, 'origin:corpus-splice': 80, 'origin:funcs': 1200, 'stmt:Select': 2800, 'stmt:Insert': 300, 'stmt:Update': 300,
-                    'stmt:Delete': 200, 'stmt:CreateTable': 200, 'stmt:DropTables': 90, 'stmt:Union': 180},
+                    'stmt:Delete': 200, 'stmt:CreateTable': 200, 'stmt:DropTables': 90, 'stmt:Union': 180,
+                    'origin:deep': 15, 'deep:compile-recursion-refused': 6, 'origin:names': 100, 'origin:funcargs': 300},
           'thorough': {'__nontrivial__': 12000, 'fallback-exercised': 5000, 'rendered': 10000, 'origin:splice': 5000,
                        'origin:splice-all': 2000, 'origin:grammar': 8000, 'origin:corpus-splice': 800, 'origin:funcs': 1200, 'stmt:Select': 10000,
                        'stmt:Insert': 1000, 'stmt:Update': 1000, 'stmt:Delete': 600, 'stmt:CreateTable': 600, 'stmt:DropTables': 270,
-                       'stmt:Union': 500}}
+                       'stmt:Union': 500, 'origin:deep': 100, 'deep:compile-recursion-refused': 40, 'origin:names': 600,
+                       'origin:funcargs': 2000}}
 N = {'quick': 600, 'thorough': 7000}
 
 _LEX = {}
@@ -271,6 +279,30 @@ def _call(fn):
         return 'leak', e
 
 
+def _stack_depth():
+    import sys
+    f, n = sys._getframe(), 0
+    while f is not None:
+        n += 1
+        f = f.f_back
+    return n
+
+
+def str_has_margin(T):
+    """True when the tree's own printer works with half of the stack that is left at this point: a RecursionError that the
+    renderer raises on such a tree is its own doing, not the interpreter's limit being reached by any consumer of the tree."""
+    import sys
+    lim, d = sys.getrecursionlimit(), _stack_depth()
+    sys.setrecursionlimit(d + max(60, (lim - d) // 2))
+    try:
+        str(T)
+        return True
+    except RecursionError:
+        return False
+    finally:
+        sys.setrecursionlimit(lim)
+
+
 def judge(case, col):
     import warnings
     with warnings.catch_warnings():
@@ -338,6 +370,12 @@ def _judge(case, col):
         k0p, v0p = _call(lambda: SqlalchemyRender(t).get_exec_params(state['T'], with_failback=False))
         check_tree(t, 'get_exec_params(no-fallback)')
         if 'recursion' in (k0, k0p):
+            if own_err is None and str_has_margin(state['T']):
+                nm = 'get_string' if k0 == 'recursion' else 'get_exec_params'
+                rec('nofallback-leaks', 'RecursionError@render', t, f'{nm}(with_failback=False) on {stmt}: RecursionError while the '
+                    "tree's own str() needs less than half of the stack", ['msg:recursion', 'deep-tree'])
+                state['fallback'] = True
+                continue
             state['excluded'] = 'recursion'
             break
         for nm, k, v in (('get_string', k0, v0), ('get_exec_params', k0p, v0p)):
@@ -352,6 +390,8 @@ def _judge(case, col):
                 state['rendered'] = True
             else:
                 state['fallback'] = True
+                if 'RecursionError' in str(v):
+                    state['rec_refused'] = True
         if k0 == 'ok' and not isinstance(v0, str):
             rec('non-string-result', stmt, t, f'get_string -> {type(v0).__name__}')
         # expected results with fallback on
@@ -363,6 +403,11 @@ def _judge(case, col):
         k1p, v1p = _call(lambda: SqlalchemyRender(t).get_exec_params(state['T']))
         m1p = check_tree(t, 'get_exec_params')
         if 'recursion' in (k1, k1p):
+            if own_err is None and str_has_margin(state['T']):
+                nm = 'get_string' if k1 == 'recursion' else 'get_exec_params'
+                rec('fallback-raises', 'RecursionError@render', t, f"{nm}() on {stmt}: RecursionError while the tree's own str() needs "
+                    'less than half of the stack', ['msg:recursion', 'deep-tree'])
+                continue
             state['excluded'] = 'recursion'
             break
         for nm, k, v, kn, vn, mut in (('get_string', k1, v1, k0, v0, m1), ('get_exec_params', k1p, v1p, k0p, v0p, m1p)):
@@ -402,6 +447,8 @@ def _judge(case, col):
         classes.append('rendered')
     if own is None:
         classes.append('own-str-raises')
+    if state.get('rec_refused'):
+        classes.append('deep:compile-recursion-refused')
     nontrivial = state['fallback'] or (state['rendered'] and not verbatim)
     col.case((d, ' '.join(sql.split())), nontrivial, classes,
              {'dialect': d, 'sql': sql, 'fallback_exercised': state['fallback'], 'rendered': state['rendered']})
@@ -417,7 +464,7 @@ def cases(draw, pool='lite'):
     d = draw(st.sampled_from(corpus.DIALECTS))
     gg = grammar.get(d)
     mode = draw(st.sampled_from(['grammar', 'grammar', 'grammar', 'grammar-any', 'mut-corpus', 'corpus-splice', 'corpus-splice',
-                                 'splice', 'splice', 'splice', 'splice-table', 'splice-table', 'coltype']))
+                                 'splice', 'splice', 'splice', 'splice-table', 'splice-table', 'coltype', 'deep']))
     if mode == 'grammar':
         kinds = [k for k in RENDERED_KINDS if k in gg.start_kinds]
         start = draw(st.sampled_from(kinds + ['select', 'select']))
@@ -454,6 +501,11 @@ def cases(draw, pool='lite'):
             es.append(e)
         it = iter(es)
         sql = re.sub(r'\{e\}', lambda m: next(it), frame)
+    elif mode == 'deep':
+        # one construct nested / chained to a random depth (the fixed list holds the depths 60 and 160 only)
+        n = draw(st.integers(20, 220))
+        name = draw(st.sampled_from(sorted(c17_shapes.deep_shapes(2))))
+        sql = c17_shapes.deep_shapes(n)[name]
     elif mode == 'splice-table':
         frame = draw(st.sampled_from(TABLE_FRAMES))
         sql = frame.replace('{t}', draw(st.sampled_from(TABLE_FRAGS)))
@@ -508,8 +560,8 @@ def function_catalogue():
     return [f'{n}{a}' for n in names for a in FUNC_ARGS]
 
 
-def fixed_cases():
-    out = []
+def fixed_cases(tier='quick'):
+    out = c17_shapes.deep_cases(tier) + c17_shapes.name_cases(tier) + c17_shapes.func_arg_cases(tier)
     for d in corpus.DIALECTS:
         for f in function_catalogue():
             out.append({'dialect': d, 'sql': f'select {f} from t', 'origin': 'funcs'})
@@ -543,7 +595,7 @@ def fixed_cases():
 
 
 def run_shard(col, k, nshards, tier, seed):
-    for i, c in enumerate(fixed_cases()):
+    for i, c in enumerate(fixed_cases(tier)):
         if i % nshards == k:
             for rec in judge(c, col):
                 col.fail(rec, c)
@@ -556,6 +608,11 @@ def run_shard(col, k, nshards, tier, seed):
                 for rec in judge(c, col):
                     col.fail(rec, c)
     if k == 0:
+        col.exhaustive_parts.append(f'{len(c17_shapes.deep_cases(tier))} deep / wide statements ({len(c17_shapes.deep_shapes(2))} constructs x depths '
+                                    f'{c17_shapes.DEEP_DEPTHS[tier]}), {len(c17_shapes.name_cases(tier))} odd-name statements ({len(c17_shapes.ODD_NAMES)} names x '
+                                    f'{len(c17_shapes.NAME_TEMPLATES)} positions' + (', every 3rd' if tier == 'quick' else '') + f'), {len(c17_shapes.func_arg_cases(tier))} '
+                                    f'function x argument-kind statements (registered names x {len(c17_shapes.ARG_KINDS)} kinds x {len(c17_shapes.ARG_FORMS)} forms'
+                                    + (', every 10th' if tier == 'quick' else '') + ')')
         col.exhaustive_parts.append(('every 8th' if pstep > 1 else 'every') + ' accepted production-pair sentence of the three grammars '
                                     '(every production with every alternative of each of its nonterminals)')
         col.exhaustive_parts.append(f'all {len(corpus.accepted())} corpus statements and {len(SHAPES) + 2 * len(COLTYPES + type_catalogue()) + 5 * len(BINOPS) + 2 * len(PY_NAMES) * len(PY_TEMPLATES)} targeted shapes x 3 parser '
